@@ -1983,7 +1983,11 @@ class subarray : public const_subarray<T, D, ElementPtr, Layout> {
 
 	template<class TT = typename subarray::element_type>
 	constexpr auto fill(TT const& value) & -> decltype(auto) {
-		return adl_fill_n(this->begin(), this->size(), value), *this;
+		if constexpr(D == 0) {  // no begin() and no size() at rank 0: the one element is the whole array
+			return adl_fill_n(this->base_, 1, value), *this;
+		} else {
+			return adl_fill_n(this->begin(), this->size(), value), *this;
+		}
 	}
 	constexpr auto fill()& -> decltype(auto) {return fill(typename subarray::element_type{});}
 
